@@ -23,6 +23,14 @@ CLAIMED = {
     note=TRUST + 'Not covered: event-loop survival and isolation of other connections (whole-process/schedule property), the embedded HTTP front end, multipart upload errors. '
          'Collaborators (socket, string pool, env map, atoi/atoll, strlen, memcpy) are stubs with assumed contracts that assert the ranges they are given.',
     design='4 (C01/C02/C12)', technique='cbmc code contracts (dfcc) + loop contracts; ghost handler-exactly-once counter; stubs asserting buffer ranges'),
+ 'C04': dict(
+    text='Slice: the tokeniser split_to_parts is proved for every input: the parts tile the input (contiguous, non-empty, ending at the end) and, at an arbitrary offset, a plain-text part contains none of < > &, '
+         'an entity part is &...; with no earlier ;, a tag part is <...> with no earlier >, a comment part is <!--...--> with none of < > & inside. This is the stability argument of the filter: kept parts re-tokenise '
+         'identically, removed or escaped parts contribute no markup. The tag grammar (parse_html_tag, parse_properties, validate_property_value, ends_with) is under contract for memory safety (sentinel >) and for the '
+         'shape of tag/attribute names and quoted values.',
+    note=TRUST + 'Not covered: rule lookup (std::map/set), regex and URI validators, validate_nesting (std::stack), numeric entity ranges, the escape loop, character-encoding validation (units utf8/encoding), '
+         'and the composition validate(filter(x)) over token vectors. std::vector<entry>::push_back is a stub asserting tiling and classification; the input is modelled inside an object with 4 bytes of slack (p+4<end).',
+    design='4 (C04)', technique='cbmc loop contracts (goto-instrument --apply-loop-contracts) on extracted C, obligations solved in chunks; ghost-offset classification asserted at every push_back'),
  'C05': dict(
     text='Slice: hmac_cipher::equal is proved to return true exactly when all bytes are equal while visiting every byte (no data-dependent exit); hmac_cipher::decrypt and aes_cipher::decrypt are proved to '
          'accept only when the MAC was computed over the whole message part, compared in full with the trailing tag and matched, to decrypt only after that, and to keep every length derived from the cookie inside the buffers; '
@@ -37,6 +45,12 @@ CLAIMED = {
     note=TRUST + 'Identifiers in the skeletons are abstracted to tags; storage, cookie accessors, time() and the random device are stubs. Not covered: session_interface (values, exposed flags, age, expiration modes), '
          'session_dual, memory/tcp storages, unpredictability of identifiers, histories over browsers and clocks.',
     design='4 (C05/C06)', technique='cbmc code contracts (dfcc) on extracted C: exact-language contract, protocol skeletons with ghost tags'),
+ 'C11': dict(
+    text='Slice: the JSON string writer (generic_append, used for every key and string value): opening quote, every input byte represented exactly once and in order (verbatim only if it is not a quotation mark, '
+         'reverse solidus or control character, otherwise by exactly its escape), closing quote. The string-token parser parse_string: terminates on every input without reading past the stream, and an accepted string '
+         'contains no raw control character, only the RFC 8259 escapes, surrogate escapes only as first/second pairs, and passed UTF-8 validation.',
+    note=TRUST + 'Not covered: tokenizer dispatch, nesting bound, unique keys, number parsing/printing (iostream), tree construction, typed extraction, locale. The stream buffer, str, read_4_digits and utf8::validate are stubs.',
+    design='4 (C11)', technique='cbmc code contracts (dfcc) + loop contracts; Appender/stream stubs asserting what each append may contain'),
  'C12': dict(
     text='Slice: multipart_parser::consume (all states) is memory safe for every chunk, keeps a well-formed (state, position) pair across chunks, reports a refusing file sink as no_room_left and never writes after it, '
          'and satisfies the conservation law bytes-in-file + pending partial boundary match == bytes consumed (unbounded, loop contracts); request::on_content_start refuses negative/over-limit Content-Length with 400/413; '
@@ -78,6 +92,12 @@ CLAIMED = {
     note=TRUST + 'POSIX read/lseek/time are stubs with regular-file semantics; zlib CRC-32 is an arbitrary fixed value of the payload: "a CRC-consistent record is one some save wrote" is the CRC collision assumption. '
          'Size fields >= 2^31 are outside the contract (observation recorded). Not covered: writer ordering, fsync/sector model, locking, unlink, directory walk of gc.',
     design='4 (C18)', technique='cbmc code contracts (dfcc) with a ghost file of arbitrary content; loop contract for read_all'),
+ 'C20': dict(
+    text='Slice: booster::regex::match (both overloads) reports a match only if pcre_exec on the ANCHORED pattern compiled from "(?:p)\\z" succeeded with offsets 0..length of the subject (whole string, never a prefix), '
+         'and hands on exactly the offsets pcre reported for each group; url_dispatcher::dispatch executes the first handler in registration order whose patterns match, tries none after it, and returns false only if none matches.',
+    note=TRUST + 'pcre_exec is a stub with the PCRE 8 API contract; that "(?:p)\\z" cannot match short of the end is PCRE semantics (assumed). options[i]->dispatch is an oracle array (<= 16 options). '
+         'Not covered: regex::assign, option::matches method filter, mount points, applications pool, url_mapper and the mapper/dispatcher round trip.',
+    design='4 (C20)', technique='cbmc code contracts (dfcc) + loop contracts with ghost-recorded pcre_exec arguments / dispatch oracle'),
  'C19': dict(
     text='The chunk reader/writer of cppcms::archive (next_chunk_size, read_chunk, read_chunk_as_string, write_chunk, eof) and the POD-vector load body are under contract: '
          'for every archive content, length and cursor a read either throws or stays inside the archive bytes and returns exactly the payload; '
@@ -88,6 +108,9 @@ CLAIMED = {
 }
 
 NOT_APPLICABLE = {
+ 'C03': 'not claimed: the one C-like function attempted (aio::details::advance) is a walking-pointer/result-list shape whose loop-contract proof does not close in cbmc 6.11 (specs/wip); header assembly, chunked/FastCGI framing, gzip and the streambuf chain are C++ object code outside the C front end. No obligation set is discharged on every run, so nothing is claimed.',
+ 'C08': 'not built: limit/LRU/eviction order is a history property over the templated mem_cache (see C07); the C-like slice (buddy allocator bit arithmetic) is designed but no contract unit exists yet.',
+ 'C10': 'not built: L1/L2 coherence across nodes is a history/schedule property; the C-like slice (cache-server frame length checks, where a 32-bit sum of three lengths can wrap: observation in DESIGN.md section 5) has no contract unit yet.',
  'C07': 'mem_cache<Setup> is class-template/STL-iterator code (hash_map, std::list, std::multimap with stored iterators) that cbmc\'s C++ front end cannot parse and that no token-level extraction to C preserves; the property is a statement over operation histories, not over one call.',
  'C09': 'concurrency / linearizability over thread schedules: cbmc code contracts are sequential; no contract within reach expresses interleavings of the templated cache code and booster mutexes.',
  'C17': 'exactly-once delivery under thread/event-loop schedules (io_service, reactor, thread_pool): a schedule property over C++ callback code; sequential contracts cannot express it.',
